@@ -424,11 +424,17 @@ func runFaultSuite(rep *Report, tier string, seed int64, prop string) {
 			}
 		}
 		rep.Extra["hammer_repetitions"] = n
+		if tier == "thorough" {
+			c15CallsStartingAtTeardown(rep, prop, 3000, 24, 30*time.Second, false)
+		} else {
+			c15CallsStartingAtTeardown(rep, prop, 400, 24, 4*time.Second, false)
+		}
 	}
 	if prop == "C16" {
 		for _, api := range apis() {
 			c16ManyInFlight(rep, prop, api, 1300)
 		}
+		c16CauseContexts(rep, prop)
 		for _, api := range apis() {
 			for _, how := range []string{"cancelled", "deadline"} {
 				rep.Evaluations++
